@@ -144,11 +144,13 @@ class Ctx:
                     continue
                 self.report(key, "%s rejected at line %d: clause %s; event %s" %
                             (label, ln, rj["clause"], evline[:300]),
-                            artefact_lines=lines[a - 1:b])
+                            artefact_lines=lines[a - 1:b],
+                            spec={"dir": spec_dir, "module": module, "cfg": cfg, "env": kw.get("env") or {},
+                                  "tla_library": [os.path.relpath(p, VERIF) for p in T.COMMON.split(os.pathsep)]})
         return v
 
     # ---- verdicts -----------------------------------------------------------------------------
-    def report(self, key, what, artefact_lines=None, artefact_text=None):
+    def report(self, key, what, artefact_lines=None, artefact_text=None, spec=None):
         for f in self.findings:
             if f.get("status") == "known" and f.get("property") == self.pid and fnmatch.fnmatchcase(key, f["key"]):
                 if key not in [k["key"] for k in self.known_hits]:
@@ -160,7 +162,7 @@ class Ctx:
         path = os.path.join(OUT, "replays", "%s-%s.replay" % (self.pid, safe))
         with open(path, "w") as f:
             f.write(json.dumps({"e": "ReplayHeader", "property": self.pid, "key": key, "what": what,
-                                "tier": self.tier, "seed": self.seed}) + "\n")
+                                "tier": self.tier, "seed": self.seed, "spec": spec}) + "\n")
             if artefact_lines:
                 f.writelines(artefact_lines)
             if artefact_text:
@@ -309,3 +311,45 @@ def write_ndjson(path, items):
     with open(path, "w") as f:
         for it in items:
             f.write(json.dumps(it, separators=(",", ":")) + "\n")
+
+
+def replay(path):
+    """check.py <Cxx> --replay <file>: show a recorded violation again.  A replay file holds the header written by
+    Ctx.report and, for trace rejections, the recorded execution (from its Reset to the rejected event) of the REAL code.
+    That execution is validated once more against the trace specification named in the header: exit 1 with the clause if
+    the current specification still rejects it, exit 0 if it accepts it (e.g. after a specification error was corrected).
+    Other artefacts (sanitizer text, TLC counterexamples, compiler output of an API probe) are printed as recorded."""
+    with open(path) as f:
+        first = f.readline()
+        rest = f.read()
+    try:
+        hdr = json.loads(first)
+    except Exception:
+        print("not a replay file:", path); return 2
+    print("recorded: property=%s key=%s tier=%s seed=%s" % (hdr.get("property"), hdr.get("key"), hdr.get("tier"), hdr.get("seed")))
+    print("   ", hdr.get("what", "")[:600])
+    sp = hdr.get("spec")
+    if not sp:
+        print(rest[:4000])
+        print("VIOLATION property=%s replay=%s" % (hdr.get("property"), path))
+        return 1
+    tmp = os.path.join(CACHE, "replay-%d.ndjson" % os.getpid())
+    with open(tmp, "w") as f:
+        f.write(rest)
+    old = T.COMMON
+    T.COMMON = os.pathsep.join(os.path.join(VERIF, p) for p in sp.get("tla_library", ["spec/common"]))
+    try:
+        env = dict(sp.get("env") or {})
+        v = T.validate_trace(os.path.join(VERIF, "spec", sp["dir"]), sp["module"], sp["cfg"], tmp, nshards=1, env=env)
+    finally:
+        T.COMMON = old
+        os.remove(tmp)
+    if v.infra:
+        print("INFRASTRUCTURE-ERROR:", v.infra); return 2
+    if not v.rejects:
+        print("the current specification accepts the recorded execution (%d events)" % v.events)
+        return 0
+    for rj in v.rejects:
+        print("rejected again at line %d of the recorded execution: property %s, clause %s" % (rj["line"], rj["pid"], rj["clause"]))
+    print("VIOLATION property=%s replay=%s" % (hdr.get("property"), path))
+    return 1
